@@ -116,6 +116,9 @@ class Generator(SchemaVisitor[Any]):
             alphabet = schema.props.alphabet
         else:
             alphabet = STR_ALPHABET
+        if len(alphabet) == 0:
+            # nothing can be drawn from an empty alphabet: only the empty string conforms
+            return ""
 
         if schema.props.substr is not Nil:
             substr = schema.props.substr
